@@ -311,7 +311,7 @@ func init() {
 				n, streams, mutated = 28, 300, 8000
 			}
 			for i := 0; i < n; i++ {
-				jobs = append(jobs, Job{Variant: "plain", Mode: "db.proto", Args: js(map[string]interface{}{"Cfg": protoCfg(i), "Prop": "c11", "Streams": streams, "Cmds": 40, "Mutated": mutated, "Conns": 4, "OOM": i == 1})})
+				jobs = append(jobs, Job{Variant: "plain", Mode: "db.proto", Args: js(map[string]interface{}{"Cfg": protoCfg(i), "Prop": "c11", "Streams": streams, "Cmds": 40, "Mutated": mutated, "Conns": 4, "OOM": i == 1, "MaxBody": []int{3000, 3000, 24000, 24000}[i%4]})})
 			}
 			jobs = append(jobs, Job{Variant: "asan", Mode: "db.proto", Args: js(map[string]interface{}{"Cfg": protoCfg(0), "Prop": "c11", "Streams": streams / 3, "Cmds": 40, "Mutated": mutated / 3, "Conns": 4})})
 			jobs = append(jobs, Job{Variant: "plain", Mode: "mc.roundtrip", Args: js(map[string]interface{}{"Cases": mutated * 10})})
@@ -330,10 +330,10 @@ func init() {
 				n, attrib, mutated, cuts = 28, 5000, 3000, 40
 			}
 			for i := 0; i < n; i++ {
-				jobs = append(jobs, Job{Variant: "plain", Mode: "db.proto", Args: js(map[string]interface{}{"Cfg": protoCfg(i), "Prop": "c12", "Streams": 3, "Cmds": 40, "Mutated": mutated, "Attrib": attrib, "Conns": 8, "CutSweeps": cuts})})
+				jobs = append(jobs, Job{Variant: "plain", Mode: "db.proto", Args: js(map[string]interface{}{"Cfg": protoCfg(i), "Prop": "c12", "Streams": 3, "Cmds": 40, "Mutated": mutated, "Attrib": attrib, "Conns": 8, "CutSweeps": cuts, "MaxBody": []int{3000, 24000, 24000, 3000}[i%4]})})
 			}
 			jobs = append(jobs, Job{Variant: "race", Mode: "db.proto", Args: js(map[string]interface{}{"Cfg": protoCfg(2), "Prop": "c12", "Streams": 3, "Cmds": 60, "Mutated": 30, "Attrib": 80, "Conns": 8})})
-			jobs = append(jobs, Job{Variant: "asan", Mode: "db.proto", Args: js(map[string]interface{}{"Cfg": protoCfg(2), "Prop": "c12", "Streams": 3, "Cmds": 60, "Mutated": 60, "Attrib": 150, "Conns": 8})})
+			jobs = append(jobs, Job{Variant: "asan", Mode: "db.proto", Args: js(map[string]interface{}{"Cfg": protoCfg(2), "Prop": "c12", "Streams": 3, "Cmds": 60, "Mutated": 60, "Attrib": 150, "Conns": 8, "MaxBody": 24000})})
 			return jobs
 		},
 	})
